@@ -6,6 +6,7 @@
 #include <complex>
 #include <cstdlib>
 #include <cstring>
+#include <memory>
 #include <new>
 #include <vector>
 
@@ -81,14 +82,32 @@ namespace c18
             AA a;
             return a.max_size();
         }
-        AllocResult allocate(size_t n) override
+        AllocResult allocate(size_t n, int via) override
         {
             AllocResult r;
             AA a;
             ClientScope cs;
             try
             {
-                T* q = a.allocate(n);
+                // every public way of asking the allocator for n objects; the hint is some address the caller happens to hold
+                int hint_target = 0;
+                const void* hint = &hint_target;
+                T* q;
+                switch (via & 3)
+                {
+                case 1:
+                    q = a.allocate(n, hint);
+                    break;
+                case 2:
+                    q = std::allocator_traits<AA>::allocate(a, n);
+                    break;
+                case 3:
+                    q = std::allocator_traits<AA>::allocate(a, n, hint);
+                    break;
+                default:
+                    q = a.allocate(n);
+                    break;
+                }
                 r.p = q;
                 // what user code does next with a fresh block: ask whether it may use aligned accesses on it. Evaluated here, on the very
                 // value allocate returned, so that anything the allocator told the optimizer about that value is in force.
